@@ -162,6 +162,31 @@ def step (st : State) (w : List String) : State × String :=
       let v := match answerWildcard covers z sa ns with | .ok => "ok" | .fail _ => "fail"
       some (v ++ " kept=" ++ showNats kept)
     (st, r.getD "bad-op")
+  | "nsec3" :: "nodata" :: _ =>
+    let r : Option String := do
+      let t ← (field w "t").toNat?
+      let vs := field w "V"
+      let cs := vs.toList
+      let view : Option N3View :=
+        match cs with
+        | ['x', a, b, c] => some { exact := some (a == 'q', b == 's', c == 'n') }
+        | 'm' :: rest =>
+          match (String.ofList rest).splitOn ":" with
+          | [ce, cv, wv] =>
+            let cover := if cv == "n" then none else some (cv == "1")
+            let wild := if wv == "n" then none else some (wv.startsWith "q", wv.endsWith "1")
+            some { ceFound := ce != "0", ceBad := ce == "b", cover := cover, wild := wild }
+          | _ => none
+        | _ => none
+      let v ← view
+      match verifyNODATA3 (t == 43) v with
+      | .secure => some "secure" | .insecure => some "insecure" | .typeExists => some "fail:typeexists"
+      | .badDelegation => some "fail:baddelegation" | .noCover => some "fail:nocover" | .optOut => some "fail:optout"
+    (st, r.getD "bad-op")
+  | ["proofname", "check", q, ds] =>
+    match parseBool ds with
+    | some d => (st, showName (insecureProofName (parseName q) d))
+    | none => (st, "bad-op")
   | "filter" :: "zone" :: _ =>
     let r : Option String := do
       let z := parseName (field w "z")
